@@ -104,6 +104,44 @@ def impl_oracle(ctx, C, D, p, dw, classes, rs, rep):
     return True
 
 
+def dropout_history(ctx, quick):
+    """models configured with probabilistic dropout (training-time regularisation), put in evaluation mode, queried, asked for an
+    MPE completion, queried again: in evaluation mode the network is the circuit — a query between two others must not change what
+    the network computes, and a fully missing input keeps log-probability 0"""
+    for k in range(3 if quick else 20):
+        rs = np.random.RandomState(np_seed(ctx.sub_rng('dropout', k)))
+        D = int(rs.choice([2, 4, 6])); p = int(rs.randint(0, 2)); dw = bool(rs.rand() < 0.5); C = int(rs.randint(1, 3)); classes = int(rs.randint(1, 3))
+        rep = dict(kind='c17-dropout', C=C, D=D, n_pooling=p, depthwise=dw, classes=classes, k=k, seed=ctx.seed)
+        torch.manual_seed(int(rs.randint(10 ** 6)))
+        try:
+            model = DgcSpn((C, D, D), out_classes=classes, n_batch=2, sum_channels=2, depthwise=dw, n_pooling=p,
+                           in_dropout=float(rs.choice([0.2, 0.5])), sum_dropout=float(rs.choice([0.2, 0.5])))
+        except Exception:
+            ctx.count('constructor-rejects')
+            continue
+        ctx.count('dropout-histories')
+        ctx.case('dropout-history', nontrivial_key=('dropout', k), sample=rep)
+        randomize(model)
+        model.eval()
+        x = torch.tensor(rs.randn(4, C, D, D)).float()
+        q = x.clone()
+        q[torch.tensor(rs.rand(4, C, D, D) < 0.4)] = float('nan')
+        try:
+            with torch.no_grad():
+                a0, z0 = model(x).clone(), model(torch.full((1, C, D, D), float('nan'))).clone()
+            model.mpe(q)
+            with torch.no_grad():
+                a1, z1 = model(x), model(torch.full((1, C, D, D), float('nan')))
+        except Exception as ex:
+            ctx.violation(f'c17-raises:{type(ex).__name__}', f'accepted configuration raised {type(ex).__name__}: {str(ex)[:200]} [dropout history]', replay=rep)
+            continue
+        if model.training or not bool(torch.equal(torch.nan_to_num(a0, nan=7e7), torch.nan_to_num(a1, nan=7e7))) or bool((z1.abs() > 1e-4).any()) \
+                or bool(torch.isnan(a1).any()):
+            ctx.violation('c17-eval-mode-history', f'model with dropout configured, in evaluation mode: after an mpe() call the same complete inputs get '
+                          f'{a1.reshape(-1)[:3].tolist()} instead of {a0.reshape(-1)[:3].tolist()}, a fully missing input gets {z1.reshape(-1).tolist()} '
+                          f'(training flag is {model.training})', replay=rep)
+
+
 def run(ctx):
     quick = ctx.tier == 'quick'
     cfgs = []
@@ -200,6 +238,8 @@ def run(ctx):
                         break
         if ctx.n_new(with_input_only=True) >= 3:
             break
+    if ctx.n_new(with_input_only=True) == 0:
+        dropout_history(ctx, quick)
     if model_mismatch and not any(v['found_input'] for v in ctx.violations):
         # failing-input search: the property's own statement on the implementation, over every configuration (not only this run's sample)
         for (D, p, dw) in all_cfgs:
